@@ -7,7 +7,7 @@ from . import front
 from .values import *  # noqa
 from .state import State, Fork, Unsupported, Ob
 from .expr import Evaluator, I, as_int, as_real, is_num, const_int, zmin, zmax
-from .contract import REGISTRY, BY_NAME, Contract, CLASSES
+from .contract import REGISTRY, BY_NAME, Contract, CLASSES, UFUNCS
 from . import values as _values
 values_ctr = _values._ctr
 
@@ -141,6 +141,11 @@ class Engine(Evaluator):
         if t == 'str':
             return VElem(z3.Const(fresh_name(base), Elem))
         k = t[0]
+        if k == 'opt':
+            flag = z3.Bool(fresh_name(base + '.isnone'))
+            if st.decide(flag):
+                return VNone()
+            return self.fresh_value(t[1], base, st)
         if k in ('list', 'arr'):
             lv, n = st.heap.fresh_list(t[1], base)
             st.assume(n >= 0)
@@ -180,6 +185,8 @@ class Engine(Evaluator):
 
     # ---- name resolution -------------------------------------------------------------------------
     def resolve_global(self, name, st):
+        if name in UFUNCS:
+            return VFunc('ufunc', name)
         if name in self.spec_funcs:
             return VFunc('spec', name)
         cs = [c for c in BY_NAME.get(name, []) if '.' not in c.qual]
@@ -208,6 +215,14 @@ class Engine(Evaluator):
             bases = front.class_bases(f, cls) if f else []
             cls = bases[0] if bases else None
         return None
+
+    def resolve_elem_attr(self, base, attr, st):
+        cands = [c for c in BY_NAME.get('elem.%s' % attr, []) if c.qual == 'elem.%s' % attr]
+        if not cands:
+            return None
+        if cands[0].is_property:
+            return self.apply_contract(cands[0], [base], {}, st, None)
+        return VFunc('method', attr, self_val=base, extra=cands)
 
     # ---- calls -------------------------------------------------------------------------------------
     def ev_Call(self, node, st):
@@ -271,6 +286,12 @@ class Engine(Evaluator):
                 return VNone()
             if f.kind == 'spec':
                 return self.inline_spec(f.name, args, kw, st)
+            if f.kind == 'ufunc':
+                asorts, rsort = UFUNCS[f.name]
+                SM = {'int': z3.IntSort(), 'bool': z3.BoolSort(), 'real': z3.RealSort(), 'elem': Elem}
+                fn = z3.Function(f.name, *([SM[a] for a in asorts] + [SM[rsort]]))
+                ts = [flatten(a, v)[0] for a, v in zip(asorts, args)]
+                return build(rsort, iter([fn(*ts)]))
             if f.kind == 'listmethod':
                 return self.call_listmethod(f, args, st, node)
             if f.kind == 'recmethod':
@@ -700,7 +721,7 @@ class Engine(Evaluator):
     # ---- applying a callee contract ---------------------------------------------------------------------
     def bind_params(self, c, args, kw, st):
         names = list(c.params)
-        if '.' in c.qual and 'self' not in names:
+        if '.' in c.qual and 'self' not in names and c.file != '<lib>':
             names = ['self'] + names
         env = {}
         pos = [a for a in args if not isinstance(a, tuple)]
@@ -728,7 +749,8 @@ class Engine(Evaluator):
         return env
 
     def apply_contract(self, c, args, kw, st, node):
-        if st.spec or not self.cur_tag:
+        if st.spec or not self.cur_tag or (isinstance(c.result, str) and 'opt[' in c.result):
+            # (opt results fork on a fresh flag: the branch contradicting the ensures is infeasible by construction)
             return self._apply_contract(c, args, kw, st, node)
         line = (getattr(node, 'lineno', self.cur_func_line) - self.cur_func_line) if node is not None else 0
         nm = '%s.canary.%s@L%d' % (self.cur_tag, c.qual, line)
@@ -743,6 +765,8 @@ class Engine(Evaluator):
         if c.kind == 'assumed':
             self.assumed_used.add(c.key)
         env = self.bind_params(c, args, kw, st)
+        if 'G' in st.env and 'G' not in env:
+            env['G'] = st.env['G']
         saved_env, saved_ghost = st.env, st.ghost
         old = st.old
         st.env = dict(env)
@@ -878,6 +902,16 @@ class Engine(Evaluator):
         return m(stmt, st)
 
     def st_Pass(self, stmt, st):
+        return [st]
+
+    def st_Import(self, stmt, st):
+        for a in stmt.names:
+            st.env[a.asname or a.name.split('.')[0]] = VModule(a.name)
+        return [st]
+
+    def st_ImportFrom(self, stmt, st):
+        for a in stmt.names:
+            st.env[a.asname or a.name] = VFunc('module', '%s.%s' % (stmt.module, a.name))
         return [st]
 
     def st_Expr(self, stmt, st):
@@ -1424,6 +1458,8 @@ class Engine(Evaluator):
                 if t is None:
                     raise front.AttachError('%s: **%s has no type in the contract' % (c.key, kn))
                 st.env[kn] = self.fresh_value(t, kn, st)
+            if 'World' in CLASSES:
+                st.env['G'] = self.fresh_value(('obj', 'World'), 'G', st)
             for n in case:
                 if n not in st.env:
                     raise front.AttachError('%s: contract parameter %r is not a parameter of the function' % (c.key, n))
